@@ -1,5 +1,7 @@
 import DirectVerif.Gen.C04
 import DirectVerif.Model.MaskInterior
+import DirectVerif.Model.C04Poisson
+import DirectVerif.Model.C04Tables
 /-!
 # Bridge C04 — what the translator extracted from `/repo` equals the hand-written model
 
@@ -110,5 +112,59 @@ theorem clamp_table_eq : clamp_KtUniform = some (0, 1) ∧ clamp_KtGaussian1D = 
 
 /-- both Poisson-disc radii are clipped to at least one pixel before the `_poisson` kernel sees them -/
 theorem poisson_radius_floor_eq : poisson_radius_floor = poissonRadiusFloor := by decide
+
+/-! `direct/common/_poisson.pyx` (through the `.pyx` front-end): the statements `Model/C04Poisson.lean` mirrors -/
+
+/-- every located statement of `poisson` (initialisation, selection of the active point, the float assignments of an
+attempt, window bounds, distance, conflict test, accept / remove updates, `random_uniform`, `randint`) reads as the
+model assumes -/
+theorem pyx_facts_eq : pyx_facts = C04Poisson.pyxFacts := by decide
+
+/-- `while num_actives > 0` is the model's `acts.size = 0` stop -/
+theorem pyx_outer_guard_eq (na : Nat) : pyx_outer_guard na = !(decide (na = 0)) := by
+  unfold pyx_outer_guard
+  by_cases h : na = 0
+  · subst h; simp
+  · have h2 : 0 < na := by omega
+    simp [h, h2]
+
+/-- `while not done and k < max_attempts`: after `k` failed attempts the model has `max_attempts - k` left -/
+theorem pyx_attempt_guard_eq (k ma : Nat) :
+    pyx_attempt_guard 0 k ma = decide (0 < ma - k) ∧ pyx_attempt_guard 1 k ma = false := by
+  unfold pyx_attempt_guard
+  constructor
+  · by_cases h : k < ma
+    · have : ((k : Int) < ma) := by omega
+      have h2 : 0 < ma - k := by omega
+      simp [this, h2]
+    · have : ¬ ((k : Int) < ma) := by omega
+      have h2 : ¬ 0 < ma - k := by omega
+      simp [this, h2]
+  · simp
+
+/-- the grid test, on integer points (the model applies the same four comparisons to the exact float value) -/
+theorem pyx_in_grid_eq (qx qy : Int) (nx ny : Nat) :
+    pyx_in_grid qx qy nx ny = C04Poisson.inGridTest (C04Poisson.Dy.ofInt qx) (C04Poisson.Dy.ofInt qy) nx ny := by
+  unfold pyx_in_grid C04Poisson.inGridTest C04Poisson.Dy.nonneg C04Poisson.Dy.ltNat C04Poisson.Dy.ofInt C04Poisson.Dy.pow2
+  simp [Bool.and_assoc]
+
+/-- `num_actives += 1` / `num_actives -= 1` / `k += 1` are the model's `push` / `pop` / one attempt less -/
+theorem pyx_counter_updates_eq (na k : Int) :
+    pyx_na_accept na = na + 1 ∧ pyx_na_remove na = na - 1 ∧ pyx_k_step k = k + 1 := ⟨rfl, rfl, rfl⟩
+
+/-! tables about ALL classes deriving from `BaseMaskFunc` (discovered in the source, not a fixed list) and the callers -/
+
+/-- no mask-function class (the 14 generators, their abstract bases, `CalgaryCampinasMaskFunc`) writes an instance
+attribute, a class attribute or a `global` outside its construction: a call keeps no state for the next one -/
+theorem state_table_ok : C04Tables.stateTableOk state_table = true := by decide
+
+/-- every class with a concrete `mask_func` returns only through `self._reshape_and_add_coil_axis(…, shape)` — except
+`CalgaryCampinasMaskFunc` (out of the property's scope: it returns `(1, rows, cols, 1)` arrays built by hand); the 14
+generators are all present -/
+theorem class_table_ok : C04Tables.classTableOk class_table = true := by decide
+
+/-- callers in `direct/` (`CreateSamplingMask`, `EstimateBodyCoilImage`, `apply_mask`) call the mask-function object
+itself — through `BaseMaskFunc.__call__` and its rank guards — with keywords among `shape`, `seed`, `return_acs` -/
+theorem call_sites_ok : C04Tables.callSitesOk call_sites = true := by decide
 
 end DirectVerif.Bridge.C04
